@@ -48,6 +48,21 @@ class PoolWorld(object):
         # a request sent on a connection that is not open is failed by the connection itself (both transports do)
         sink_stack.AsyncProcessResponseMessage(MethodReturnMessage(error=Exception('connection not open')))
     reg.on_request = on_request
+    self.extra = []        # requests issued re-entrantly by the consumer (their own fate is not judged)
+    if params.get('reenter'):
+      # a consumer that issues a new request from inside the callback that tells it a queued request failed because the
+      # pool closed (a retry layer)
+      def hook(context, msg):
+        if msg is not None and type(getattr(msg, 'error', None)).__name__ == 'ServiceClosedError' and not self.extra:
+          from scales.message import MethodCallMessage
+          from scales.sink import ClientMessageSinkStack
+          m2 = MethodCallMessage(None, 'm', (), {})
+          m2.properties['__rid'] = 9000
+          st = ClientMessageSinkStack()
+          st.Push(self.term, 9000)
+          self.extra.append(st)
+          self.pool.AsyncProcessRequest(st, m2, None, {})
+      self.term.on_response = hook
     self.open_ar = self.pool.Open()
     vloop.run_ready()
     self._sync()
@@ -111,7 +126,11 @@ class PoolWorld(object):
       args = args[:1]
     self.pre = {'live_waiters': len(self.live_waiters()), 'entries': len(self.pool._waiters),
                 'existing': len(self.existing()), 'pool_state': self.pool.state, 'quiescent': self.lp.quiescent()}
-    getattr(self, '_op_' + name)(*args)
+    try:
+      getattr(self, '_op_' + name)(*args)
+    except Exception as e:  # noqa
+      # in the real stack this exception unwinds into the greenlet that delivered the event (a reply, a connection's death)
+      self.v('C07.greenlet-died', 'the pool raised %s: %s while handling %r' % (type(e).__name__, e, op), error=type(e).__name__)
     if mode:
       self.preempts += 1
       vloop.run_ready(budget=mode - 1)
@@ -260,6 +279,9 @@ class PoolWorld(object):
     if quiescent:
       # traffic stopped (whatever state the pool is in)
       busy = [r for r in self.reqs if r['state'] in ('lent', 'queued', 'getting', 'new')]
+      # (a connection made for the consumer's re-entrant request is that request's own business)
+      mine = set(s for (ev, s, rid) in self.reg.request_log if rid == 9000)
+      ex = [c for c in ex if c.serial not in mine]
       if not busy and len(ex) > max(self.mn, 0) and self.reqs:
         self.v('C07.retain', 'after %r: traffic stopped, %d connections retained, min_watermark is %d (pool %s)'
                % (op, len(ex), self.mn, 'closed' if pool.state == ChannelState.Closed else 'open'),
